@@ -15,9 +15,13 @@
   the driver-update order, the cancellation order and the id lookups). So the order of
   processing - the only thing a permutation could change - does not depend on the hash seed.
 
-  Partial: the congruence of *all* model functions under permutation of every list of the state
-  (a setoid on `Sim`) is not formalised, and the instruction generators, rankings and reporters are
-  not modelled. Those are decided by running the real code - whole packaged scenarios and
+  The congruence of the control step under permutation of the entity maps is proved in
+  `Properties/C01Walk.lean` (`control_run_order_independent`, on top of `C01Prims.lean`); the
+  regenerated iteration-site table of the *source* is `C01Sites.lean`.
+
+  Partial: the order inside the cells of the location indexes, the pre-step phases beyond their
+  processing order, and the instruction generators, rankings and reporters are not covered by the
+  congruence. Those are decided by running the real code - whole packaged scenarios and
   function-level worlds with tied rankings and multi-fleet vehicles - in separate interpreters under
   different PYTHONHASHSEED values and comparing canonical per-step digests (hashseed layer).
 -/
